@@ -22,7 +22,9 @@ LEVEL = "exploration"
 TIMEOUT = {"quick": 1500, "thorough": 7200}
 RULE = (
     "recipes from vlib.gen.Gen biased to fusion-relevant shapes (chains, diamonds, repeated arguments f(x,x), mixed "
-    "levels, multi-output ops, reductions with iterator arguments, selections, rechunks) x requested-array subsets "
+    "levels, multi-output ops, reductions with iterator arguments, selections, rechunks; 35% extended with a lazy "
+    "store/to_zarr of a requested array into a path or an existing array chunked equal/finer/coarser/unrelated, plus a "
+    "consumer of the stored array: elementwise, f(s,s), reduction, f(s, source)) x requested-array subsets "
     "(incl. an intermediate and its consumer) x optimisers {default, multiple_inputs with max_total_source_arrays in "
     "{1,2,4,8} and max_total_num_input_blocks in {None,1,4,10,100}, random always_fuse/never_fuse subsets, "
     "simple_optimize_dag, fuse_all_optimize_dag, fuse_only_optimize_dag}. An evaluation = one (recipe, optimiser) pair "
@@ -111,6 +113,8 @@ def run_once(recipe, workdir, optimize, o):
     try:
         vals = gen.cu_build(recipe, env)
         outs = [vals[i] for i in recipe["outputs"]]
+        if recipe.get("store_ext"):
+            outs = apply_store_ext(recipe["store_ext"], outs, workdir, out)
         optf = build_optimizer(o) if optimize else None
         out["phase"] = "plan"
         fp = cubed.plan(*outs, optimize_graph=optimize, optimize_function=optf)
@@ -120,6 +124,17 @@ def run_once(recipe, workdir, optimize, o):
         out["results"] = [np.asarray(r) for r in res]
         out["phase"] = "done"
         # materialisation: read each requested array back from its own store with plain zarr
+        if out.get("target_path"):
+            # the store target, read with plain zarr (whether or not the stored array itself was requested)
+            import zarr
+
+            try:
+                z = zarr.open_array(out["target_path"], mode="r")
+                out["target_chunks_present"] = [int(z.nchunks_initialized), int(z.nchunks)]
+                out["target_value"] = np.asarray(z[...])
+            except Exception as e:
+                out["target_value"] = None
+                out["target_error"] = f"{type(e).__name__}: {e}"[:200]
         for k, a in enumerate(outs):
             za = a._zarray
             if isinstance(za, LazyZarrArray) and a.size > 0 and a.dtype.fields is None:
@@ -139,6 +154,69 @@ def run_once(recipe, workdir, optimize, o):
     return out
 
 
+def apply_store_ext(ext, outs, workdir, out):
+    """Save one requested array with a lazy store / to_zarr and derive a consumer from the stored array.
+
+    ext: {"which": j, "api", "target": path|equal|finer|coarser|unrelated, "geo_seed", "consumer": negative|twice|
+    reduce|with_source|None, "request": consumer|both|stored}. Returns the new list of requested arrays."""
+    import zarr
+
+    import cubed
+    import cubed.array_api as xp
+
+    j = ext["which"] % len(outs)
+    src = outs[j]
+    if src.dtype.fields is not None:
+        return outs
+    rng = random.Random(ext["geo_seed"])
+    path = os.path.join(workdir, "user-target.zarr")
+    kind = ext["target"] if src.ndim > 0 and src.size > 0 else "path"
+    if kind == "path":
+        tgt = path
+    else:
+        tch = []
+        for cs, d in zip(src.chunksize, src.shape):
+            if kind == "equal":
+                tch.append(cs)
+            elif kind == "finer":
+                tch.append(rng.choice([x for x in range(1, cs + 1) if cs % x == 0]))
+            elif kind == "coarser":
+                tch.append(min(d, cs * rng.choice([2, 3])))
+            else:
+                tch.append(rng.randint(1, d))
+        tgt = zarr.create_array(path, shape=src.shape, chunks=tuple(tch), dtype=src.dtype, fill_value=0)
+        out["target_chunks"] = tch
+    if ext["api"] == "to_zarr":
+        stored = cubed.to_zarr(src, tgt, compute=False)
+    else:
+        stored = cubed.store([src], [tgt], compute=False)[0]
+    out["target_path"] = path
+    isb = stored.dtype == np.bool_
+    c = ext.get("consumer")
+    if c == "negative":
+        cons = xp.logical_not(stored) if isb else xp.negative(stored)
+    elif c == "twice":
+        cons = xp.logical_or(stored, stored) if isb else xp.add(stored, stored)
+    elif c == "reduce":
+        cons = xp.any(stored) if isb else xp.max(stored) if stored.size > 0 else xp.sum(stored)
+    elif c == "with_source":
+        cons = xp.logical_and(stored, src) if isb else xp.multiply(stored, src)
+    else:
+        cons = None
+    rest = [a for k, a in enumerate(outs) if k != j]
+    req = ext["request"] if cons is not None else "stored"
+    out["stored_index"] = None
+    if req == "consumer":
+        new = rest + [cons]
+    elif req == "both":
+        new = rest + [stored, cons]
+        out["stored_index"] = len(rest)
+    else:
+        new = rest + [stored]
+        out["stored_index"] = len(rest)
+    return new
+
+
 def same_bits(a, b):
     if a.shape != b.shape or a.dtype != b.dtype:
         return f"shape/dtype differ: {a.shape}/{a.dtype} vs {b.shape}/{b.dtype}"
@@ -153,9 +231,39 @@ def same_bits(a, b):
     return f"{len(bad)}/{a.size} elements differ; first at {i}: unoptimised {a[i]!r} optimised {b[i]!r}"
 
 
+def out_label(recipe, j):
+    if recipe.get("store_ext"):
+        return f"requested #{j} of a recipe extended with {recipe['store_ext']}"
+    n = recipe["outputs"][j]
+    return f"node {n}:{recipe['nodes'][n]['op']}"
+
+
+def judge_target(ref, got, res):
+    """Store target after the optimised run, when the stored array was among the requested ones."""
+    if "target_path" not in got:
+        return None
+    si = got.get("stored_index")
+    if si is None:
+        # only a consumer was requested: the property does not say whether the target must be written
+        if got.get("target_value") is None or (got.get("target_chunks_present") or [0, 1])[0] != got["target_chunks_present"][1]:
+            res["counters"]["targets_left_unwritten_when_only_a_consumer_was_requested"] += 1
+        return None
+    res["counters"]["store_targets_checked"] += 1
+    tv = got.get("target_value")
+    if tv is None:
+        return ("store-target-not-materialised", f"requested stored array: target cannot be read back ({got.get('target_error')})")
+    p = got["target_chunks_present"]
+    if p[0] != p[1]:
+        return ("store-target-not-materialised", f"requested stored array: only {p[0]}/{p[1]} chunks of the target are present")
+    d = same_bits(ref["results"][si].astype(tv.dtype, copy=False), tv)
+    if d:
+        return ("store-target-differs", f"target content differs from the unoptimised result of the stored array: {d}")
+    return None
+
+
 def run_shard(spec, workdir):
     rng = random.Random(spec["seed"])
-    res = _rc.new_result(("pairs_compared", "dag_changed", "materialised_checked", "reference_declined", "optimised_declined_mem"))
+    res = _rc.new_result(("recipes_with_store_target", "store_targets_checked", "targets_left_unwritten_when_only_a_consumer_was_requested", "pairs_compared", "dag_changed", "materialised_checked", "reference_declined", "optimised_declined_mem"))
     gkw = {"maxdim": spec["maxdim"], "depth": spec["depth"], "allow_zero": False,
            "weights": {"binary": 16, "unary": 10, "reduce": 12, "multi": 5, "rechunk": 4, "index": 7, "manip": 10, "linalg": 5}}
     for k in range(spec["n"]):
@@ -167,6 +275,14 @@ def run_shard(spec, workdir):
             extra = rng.choice(arrs)
             if extra not in recipe["outputs"] and recipe["nodes"][extra]["op"] != "pick":
                 recipe["outputs"].append(extra)
+        if rng.random() < 0.35:
+            recipe["store_ext"] = {
+                "which": rng.randrange(8), "api": rng.choice(["store", "to_zarr"]),
+                "target": rng.choice(["path", "equal", "finer", "finer", "coarser", "unrelated"]), "geo_seed": rng.getrandbits(30),
+                "consumer": rng.choice(["negative", "twice", "reduce", "with_source", "negative", None]),
+                "request": rng.choice(["consumer", "consumer", "both", "stored"]),
+            }
+            res["counters"]["recipes_with_store_target"] += 1
         res["counters"]["recipes"] += 1
         for o in gen.recipe_ops(recipe):
             _rc.bump(res["hist"]["ops"], o)
@@ -204,18 +320,22 @@ def run_shard(spec, workdir):
             for j, (a, b) in enumerate(zip(ref["results"], got["results"])):
                 d = same_bits(a, b)
                 if d:
-                    node = recipe["nodes"][recipe["outputs"][j]]
-                    facts2 = dict(facts, output=recipe["outputs"][j], op=node["op"], diff=d)
+                    lab = out_label(recipe, j)
+                    facts2 = dict(facts, output=lab, op=lab.split(":")[-1], diff=d)
                     res["violations"].append({
                         "property": PROPERTY, "kind": "value-changed-by-optimisation",
-                        "msg": f"optimiser {o}: requested array #{j} (node {recipe['outputs'][j]}, op {node['op']}): {d}",
+                        "msg": f"optimiser {o}: requested array #{j} ({lab}): {d}",
                         "facts": facts2, "case": case})
                     break
+            viol = judge_target(ref, got, res)
+            if viol:
+                res["violations"].append({"property": PROPERTY, "kind": viol[0], "msg": f"optimiser {o}: {viol[1]}",
+                                          "facts": dict(facts, store_ext=recipe.get("store_ext")), "case": case})
             for j, why in got["missing"]:
                 res["violations"].append({
                     "property": PROPERTY, "kind": "requested-array-not-materialised",
-                    "msg": f"optimiser {o}: requested array #{j} (node {recipe['outputs'][j]}): {why}",
-                    "facts": dict(facts, output=recipe["outputs"][j], why=why), "case": case})
+                    "msg": f"optimiser {o}: requested array #{j} ({out_label(recipe, j)}): {why}",
+                    "facts": dict(facts, output=out_label(recipe, j), why=why), "case": case})
         shutil.rmtree(wd, ignore_errors=True)
         if k < 2 and spec.get("shard", 0) == 0:
             res["samples"].append({"recipe": recipe, "optimizers": optimizer_specs(random.Random(0))})
@@ -249,6 +369,7 @@ def finalize(tier, merged):
         "floors": [
             ("(recipe, optimiser) pairs compared with the unoptimised run", c.get("pairs_compared", 0), 2200 if tier == "quick" else 25000),
             ("pairs where the optimiser changed the DAG", c.get("dag_changed", 0), 700 if tier == "quick" else 9000),
+            ("store targets of requested stored arrays read back after an optimised run", c.get("store_targets_checked", 0), 150 if tier == "quick" else 1800),
             ("requested arrays read back from storage", c.get("materialised_checked", 0), 1300 if tier == "quick" else 15000),
         ],
         "assumptions": ASSUMPTIONS,
